@@ -266,7 +266,26 @@ TSGet ==
                  \cup Flag(ok /\ Ev.end.code = "OK" /\ rebOK(Ev.rebuildq) /\ ~rebOK(Ev.rebuild), "KF:getBoolLeafDropped"))
   /\ UNCHANGED <<allvars, skip, dead, known, rc, sentby, kids, lost>>
 
-STraceNext == TSReset \/ TSDead \/ TSAbort \/ TSOpen \/ TSClose \/ TSMsgBegin \/ TSAddBegin \/ TSTry \/ TSAddEnd
+\* the compliance driver uses two long-lived servers (with / without forward references): continue with the other one
+TSSwitch ==
+  /\ ~dead /\ IsEvent("sswitch")
+  /\ LET L == Logged(Ev.st) IN
+     /\ Adopt(L) /\ SAdopt(Ev.sst)
+     /\ fwd' = Ev.fwd /\ ref' = L.rib /\ pflush' = TRUE /\ call' = IdleCall /\ out' = NoOut
+  /\ req' = IdleReq /\ sout' = NoSOut /\ sf' = FALSE
+  /\ ann' = IF Ev.sst.cur = NoId THEN {} ELSE {Ev.sst.cur}
+  /\ skip' = FALSE /\ known' = EmptyFn /\ rc' = "none" /\ sentby' = EmptyFn /\ kids' = {} /\ lost' = FALSE
+  /\ UNCHANGED dead
+
+TSTestBegin == IsEvent("ctestbegin") /\ UNCHANGED <<allvars, skip, dead, known, rc, sentby, kids, lost>>
+\* a test of the compliance suite finished: against a conformant server it must have passed
+TSTest ==
+  /\ IsEvent("ctest")
+  /\ Report(Flag(Ev.fault = "" /\ ~Ev.pass /\ ~Ev.skipped, "compTestFailed"))
+  /\ dead' = FALSE /\ skip' = FALSE
+  /\ UNCHANGED <<allvars, known, rc, sentby, kids, lost>>
+
+STraceNext == TSSwitch \/ TSTestBegin \/ TSTest \/ TSReset \/ TSDead \/ TSAbort \/ TSOpen \/ TSClose \/ TSMsgBegin \/ TSAddBegin \/ TSTry \/ TSAddEnd
               \/ TSDelete \/ TSCallErr \/ TSOpDone \/ TSOpLost \/ TSMsgEnd \/ TSFlushRPC \/ TSGet
               \/ (TSnapCheck /\ SUnch)
 
